@@ -41,10 +41,10 @@ func (r *Rng) Intn(n int) int {
 	}
 	return int(r.U64() % uint64(n))
 }
-func (r *Rng) Range(lo, hi int) int { return lo + r.Intn(hi-lo+1) }
-func (r *Rng) Bool() bool           { return r.U64()&1 == 1 }
+func (r *Rng) Range(lo, hi int) int  { return lo + r.Intn(hi-lo+1) }
+func (r *Rng) Bool() bool            { return r.U64()&1 == 1 }
 func (r *Rng) Chance(p float64) bool { return float64(r.U64()>>11)/float64(1<<53) < p }
-func (r *Rng) Float() float64       { return float64(r.U64()>>11) / float64(1<<53) }
+func (r *Rng) Float() float64        { return float64(r.U64()>>11) / float64(1<<53) }
 func (r *Rng) Pick(ws ...int) int {
 	t := 0
 	for _, w := range ws {
@@ -142,11 +142,16 @@ type Collector struct {
 	kinds map[string]int
 	maxV  int
 	start time.Time
+	// occurrences at known-defect sites that were kept (not counted against maxV)
+	siteKept int
 }
+
+// how many violations of one kind are recorded (and shrunk) per run
+var kindCap = 3
 
 func NewCollector(prop, stage, rule string) *Collector {
 	return &Collector{res: Result{Property: prop, Stage: stage, Rule: rule, Dist: map[string]int{}, Extra: map[string]interface{}{}},
-		seen: map[[32]byte]bool{}, sigs: map[string]bool{}, kinds: map[string]int{}, maxV: 60, start: time.Now()}
+		seen: map[[32]byte]bool{}, sigs: map[string]bool{}, kinds: map[string]int{}, maxV: 400, start: time.Now()}
 }
 func (c *Collector) Eval(nontrivialKey string, nontrivial bool, tags ...string) {
 	c.mu.Lock()
@@ -189,7 +194,21 @@ func (c *Collector) Violate(v Violation) {
 		c.sigs["all:"+v.Signature] = true
 		c.res.Dist["violations:"+v.Kind]++
 	}
-	if c.sigs[v.Signature] || c.kinds[v.Kind] >= 3 {
+	if strings.HasPrefix(v.Signature, "site:") {
+		c.res.Dist["occurrences:"+v.Signature]++
+	}
+	if strings.HasPrefix(v.Signature, "site:") {
+		// occurrences at a known-defect site do not use up the per-kind budget (which is for
+		// fresh violations); they are kept once per signature
+		if c.sigs[v.Signature] || c.siteKept >= 1000 {
+			return
+		}
+		c.sigs[v.Signature] = true
+		c.siteKept++
+		c.res.Violations = append(c.res.Violations, v)
+		return
+	}
+	if (c.sigs[v.Signature] && os.Getenv("HX_NODEDUPE") == "") || c.kinds[v.Kind] >= kindCap {
 		return
 	}
 	c.sigs[v.Signature] = true
@@ -199,14 +218,15 @@ func (c *Collector) Violate(v Violation) {
 func (c *Collector) Full() bool {
 	c.mu.Lock()
 	defer c.mu.Unlock()
-	return len(c.res.Violations) >= c.maxV
+	return len(c.res.Violations)-c.siteKept >= c.maxV
 }
+
 // KindFull reports whether enough violations of this kind are recorded; it also counts the
 // occurrence so that the distribution shows the true number of failing cases.
 func (c *Collector) KindFull(kind string) bool {
 	c.mu.Lock()
 	defer c.mu.Unlock()
-	if c.kinds[kind] >= 3 {
+	if c.kinds[kind] >= kindCap {
 		c.res.Dist["violations:"+kind]++
 		return true
 	}
